@@ -49,7 +49,7 @@ func (world) Rule(p string) string {
 	case "C26":
 		return "one run = a real dot/state EpochState+BlockState (+ the real dot/digest BlockImportHandler) over the simulated disk; generated blocks on competing forks with tape-chosen slot gaps (epoch length 10, skipped epochs included) announce next-epoch data and configuration in the first block of an epoch on their chain (sometimes not at all); blocks are imported, finalised (followed by the persistence steps of the digest handler), the node is crashed and restarted (unfinalised blocks re-imported); for live blocks the epoch data and configuration of their epoch and the next one are looked up under a 40 s wall-clock watchdog and compared with what walking that block's own ancestry finds (latest earlier configuration, genesis as fallback). A lookup that does not return is a violation. Non-trivial = at least one finalisation or restart. In a sixth of the finalisations the simulated disk refuses one of the first four writes of the finalise step (FinalizeBABENextEpochData / FinalizeBABENextConfigData); the step is not repeated, and the data of the epoch after the finalised block, announced on the finalised chain, must stay available to every descendant (either persisted or still pending)."
 	case "C36":
-		return "fault enumeration: one run = one generated scenario (4-26 operations: block imports with real state tries, forks, scheduled and forced GRANDPA authority changes, finalisations with justification/votes/round bookkeeping in the order lib/grandpa and dot/core issue them; an eighth of the imports have their trie batch refused once by the disk, after which the same block is executed afresh and imported again) executed once over the simulated disk; then the node is restarted through the real state.Service.Start() reload path from EVERY prefix of the write log (each Put one record, each batch one atomic record). Oracle per restart: start succeeds; finalised head header, body and full state readable and equal to the reference; finalised number and (set id, round) never older than at the previous crash index; current set id has an authority list and an activation block. Crash indexes are enumerated completely per scenario, scenarios are sampled. Non-trivial = at least 10 writes."
+		return "fault enumeration: one run = one generated scenario (4-26 operations: block imports with real state tries, forks, scheduled and forced GRANDPA authority changes, finalisations with justification/votes/round bookkeeping in the order lib/grandpa and dot/core issue them; an eighth of the imports have their trie batch refused once by the disk, after which the same block is executed afresh and imported again) executed once over the simulated disk; then the node is restarted through the real state.Service.Start() reload path from EVERY prefix of the write log (each Put one record, each batch one atomic record). Oracle per restart: start succeeds; finalised head header, body and full state readable and equal to the reference; finalised number and (set id, round) never older than at the previous crash index; current set id has an authority list and an activation block. Crash indexes are enumerated completely per scenario, scenarios are sampled. In half of the runs the node restarted from one tape-chosen crash index also goes on (two blocks on its finalised head, the first announcing a scheduled change without delay, both finalised so that the change is applied) and is restarted once more from everything written; the same oracle applies. Non-trivial = at least 10 writes."
 	}
 	return ""
 }
